@@ -311,8 +311,9 @@ void root() {
   if (gen(2000) == 0) {
     std::set<std::string> seen;
     int nscan = 500;
+    uint32_t salt = gen(1u << 16);            // another family of names in every scan: each scan is an independent sample
     for (int i = 0; i < nscan; i++) {
-      char nm[48]; snprintf(nm, sizeof nm, "vp-scan-%d%s", i, i % 3 == 0 ? "-x" : "");
+      char nm[48]; snprintf(nm, sizeof nm, "vp-scan-%u-%d%s", salt, i, i % 3 == 0 ? "-x" : "");
       PSemaphore *h = p_semaphore_new(nm, 1, P_SEM_ACCESS_CREATE, nullptr);
       if (!h) violate("new_failed", "name_scan", "p_semaphore_new on the fresh name '%s' returned NULL", nm);
       std::string key = kern::last_sem_name();
